@@ -238,6 +238,12 @@ func init() {
 		{Kind: "calls", File: gd + "compiler.go", Func: "RPCCompiler.processRepeatedField", Name: "processRepeatedField", Match: gm},
 		{Kind: "calls", File: gd + "compiler.go", Func: "RPCCompiler.getEnumValue", Name: "getEnumValue", Match: gm},
 		{Kind: "calls", File: gd + "compiler.go", Func: "RPCCompiler.setValueForKind", Name: "setValueForKind", Match: gm},
+		// the positional assembly of _entities (model: Misc.GrpcMerge): every condition, range and index expression
+		{Kind: "guards", File: gd + "entity.go", Func: "newEntityIndexMap", Name: "newEntityIndexMapGuards"},
+		{Kind: "guards", File: gd + "entity.go", Func: "newRequiredFieldsIndexMap", Name: "newRequiredFieldsIndexMapGuards"},
+		{Kind: "guards", File: gd + "json_builder.go", Func: "jsonBuilder.mergeEntities", Name: "mergeEntitiesGuards"},
+		{Kind: "guards", File: gd + "json_builder.go", Func: "jsonBuilder.mergeRequiredFields", Name: "mergeRequiredFieldsGuards"},
+		{Kind: "guards", File: gd + "json_builder.go", Func: "jsonBuilder.mergeWithPath", Name: "mergeWithPathGuards"},
 	}
 	// C04: the rule set of the default validator and the order of the admission sequence
 	specs["C04"] = []item{
